@@ -253,9 +253,10 @@ theorem phAppOf_state2 (a : CApp) (st : String) (hc : phCase1 a = false) (hst : 
 def relStPh (tt : TermType) (i : CItem) (a : CApp) : String :=
   let aph := prune (subX a.allocatedPh i.res)
   let replacing := tt == .replaced && i.release.isSome
+  let failed := a.state == "Failing" && isZero (some a.allocated)
   if isZero (some aph) &&
-     ((a.state == "Completing" && !a.stateTimer && !replacing) || a.state == "Failing" || a.state == "Resuming" ||
-      (isZero (some a.pending) && isZero (some a.allocated) && !replacing)) then
+     ((a.state == "Completing" && !a.stateTimer && !replacing) || failed || a.state == "Resuming" ||
+      (isZero (some a.pending) && isZero (some a.allocated) && !replacing && a.state != "Failing")) then
     (if a.state == "Failing" then fireState a.state .fail
      else if a.state == "Resuming" then fireState a.state .run
      else fireState a.state .complete)
@@ -263,7 +264,10 @@ def relStPh (tt : TermType) (i : CItem) (a : CApp) : String :=
 
 /-- … real branch -/
 def relStReal (i : CItem) (a : CApp) : String :=
-  if isZero (some a.pending) && isZero (some (prune (subX a.allocated i.res))) then fireState a.state .complete else a.state
+  if isZero (some a.pending) && isZero (some (prune (subX a.allocated i.res))) then
+    (if a.state == "Failing" then (if isZero (some a.allocatedPh) then fireState a.state .fail else a.state)
+     else fireState a.state .complete)
+  else a.state
 
 theorem relAppT_ph (tt : TermType) (key : String) (i : CItem) (a : CApp) (hph : i.ph = true) :
     (relAppT tt key i a).state = relStPh tt i a ∧ (relAppT tt key i a).live = !(terminated (relStPh tt i a)) := by
@@ -482,15 +486,55 @@ theorem phTimeoutOf_case2_queues (hard : Bool) (s : Core) (app : String) (a : CA
   rw [phTimeoutOf_eq hard s app a hfind]; exact phTimeout_case2_queues s app _ a hw hb hfind hc hreq
 
 /-- the follow-up of a Hard timeout: when the LAST placeholder of a Failing application goes (new placeholder total
-    zero) the application is Failed and leaves the partition -/
+    zero) and the application holds no real allocation, the application is Failed and leaves the partition
+    (fix 81c5cb7) -/
 theorem relAppT_failing_last (tt : TermType) (key : String) (i : CItem) (a : CApp) (hph : i.ph = true)
-    (hst : a.state = "Failing") (hz : isZero (some (relAppT tt key i a).allocatedPh) = true) :
+    (hst : a.state = "Failing") (hz : isZero (some (relAppT tt key i a).allocatedPh) = true)
+    (hr : isZero (some a.allocated) = true) :
     (relAppT tt key i a).state = "Failed" ∧ (relAppT tt key i a).live = false := by
   rw [relAppT_allocatedPh, if_pos hph] at hz
   obtain ⟨h1, h2⟩ := LifeE.relAppT_ph tt key i a hph
   have : LifeE.relStPh tt i a = "Failed" := by
     unfold LifeE.relStPh
-    simp [hz, hst, LifeE.fire_failing_fail]
+    simp [hz, hr, hst, LifeE.fire_failing_fail]
+  rw [h1, h2, this]
+  exact ⟨rfl, by decide⟩
+
+/-- … with a real allocation left the application stays Failing and in the partition: it waits for its real
+    allocations (the hypothesis about the new placeholder total is not needed; it is kept for the shape of the case) -/
+theorem relAppT_failing_last_keeps (tt : TermType) (key : String) (i : CItem) (a : CApp) (hph : i.ph = true)
+    (hst : a.state = "Failing") (_hz : isZero (some (relAppT tt key i a).allocatedPh) = true)
+    (hr : isZero (some a.allocated) = false) :
+    (relAppT tt key i a).state = "Failing" ∧ (relAppT tt key i a).live = true := by
+  obtain ⟨h1, h2⟩ := LifeE.relAppT_ph tt key i a hph
+  have : LifeE.relStPh tt i a = "Failing" := by
+    unfold LifeE.relStPh
+    simp [hr, hst]
+  rw [h1, h2, this]
+  exact ⟨rfl, by decide⟩
+
+/-- the last real allocation of a Failing application that has neither outstanding asks nor placeholders goes: the
+    application is Failed and leaves the partition -/
+theorem relAppT_failing_last_real (tt : TermType) (key : String) (i : CItem) (a : CApp) (hph : i.ph = false)
+    (hst : a.state = "Failing") (hp : isZero (some a.pending) = true)
+    (hz : isZero (some (relAppT tt key i a).allocated) = true) (hzp : isZero (some a.allocatedPh) = true) :
+    (relAppT tt key i a).state = "Failed" ∧ (relAppT tt key i a).live = false := by
+  rw [relAppT_allocated, if_neg (by rw [hph]; exact Bool.false_ne_true)] at hz
+  obtain ⟨h1, h2⟩ := LifeE.relAppT_real tt key i a hph
+  have : LifeE.relStReal i a = "Failed" := by
+    unfold LifeE.relStReal
+    simp [hz, hp, hzp, hst, LifeE.fire_failing_fail]
+  rw [h1, h2, this]
+  exact ⟨rfl, by decide⟩
+
+/-- … with placeholders left the application stays Failing and in the partition (whatever else it holds) -/
+theorem relAppT_failing_real_keeps (tt : TermType) (key : String) (i : CItem) (a : CApp) (hph : i.ph = false)
+    (hst : a.state = "Failing") (hzp : isZero (some a.allocatedPh) = false) :
+    (relAppT tt key i a).state = "Failing" ∧ (relAppT tt key i a).live = true := by
+  obtain ⟨h1, h2⟩ := LifeE.relAppT_real tt key i a hph
+  have : LifeE.relStReal i a = "Failing" := by
+    unfold LifeE.relStReal
+    simp [hzp, hst]
   rw [h1, h2, this]
   exact ⟨rfl, by decide⟩
 
